@@ -39,8 +39,9 @@ def kernel(w, rep, fn, true_name="labels", pred_name="preds"):
     good = []
     for li in loops:
         d = li.domain
-        if d[0] == "call" and d[1] == ("builtin", "zip") and len(d[2]) == 2 \
-                and is_labels(d[2][0], true_name) and is_labels(d[2][1], pred_name):
+        if d[0] == "call" and d[1] == ("builtin", "zip") and len(d[2]) == 2 and (
+                (is_labels(d[2][0], true_name) and is_labels(d[2][1], pred_name))
+                or (is_labels(d[2][1], true_name) and is_labels(d[2][0], pred_name))):
             good.append((li, False))
         elif d[0] == "listcomp" and len(d[2]) == 1:
             inner, ilid, conds = d[2][0]
@@ -59,7 +60,8 @@ def kernel(w, rep, fn, true_name="labels", pred_name="preds"):
         # iterating the list of (l, p) pairs: the loop targets are projections of its elements
         return li, ("iterproj", li.domain, li.lid, (0,)), ("iterproj", li.domain, li.lid, (1,)), pre
     pos = ("iterproj", li.domain, li.lid, ("pos",))
-    return li, ("idx", li.domain[2][0], pos), ("idx", li.domain[2][1], pos), pre
+    kt = 0 if is_labels(li.domain[2][0], true_name) else 1  # zip(preds, labels) pairs the same positions
+    return li, ("idx", li.domain[2][kt], pos), ("idx", li.domain[2][1 - kt], pos), pre
 
 
 def n_class_ok(t, true_name="labels"):
@@ -240,9 +242,37 @@ def check_purity(rep, repo):
                     ("call", ("builtin", "len"), (("param", "labels"),), ()))
             if rets[0].value == want:
                 ok = True
+        ok = ok or _purity_loop(w, rets[0].value, cm)
     rep.fn("PUR", fi, "purity = sum over predicted groups of max over true classes of M[true][pred], / N", ok,
            f"returns '{show(rets[0].value)[:160] if rets else '?'}' (the matrix must be confusion_matrix(labels, preds) "
            "and the maximum must run over axis 0, the true-class axis)")
+
+
+def _purity_loop(w, value, cm) -> bool:
+    """The same sum spelt as a loop over the predicted groups: acc = 0; for g in range(M.shape[1]): acc += max(M[:, g])."""
+    from ..ir import elem_of, tkey
+    n = ("call", ("builtin", "len"), (("param", "labels"),), ())
+    if not (value[0] == "bin" and value[1] == "/" and value[3] == n and value[2][0] == "phi"):
+        return False
+    li = w.loops.get(value[2][1])
+    if li is None or li.kind != "for" or li.loops or value[2][2] not in li.carried:
+        return False
+    shape = ("attr", cm, "shape")
+    doms = [("call", ("builtin", "range"), (("idx", shape, ("const", k)),), ()) for k in (0, 1)]  # the matrix is square
+    if li.domain not in doms:
+        return False
+    init, nxt = li.carried[value[2][2]]
+    if init not in (("const", 0), ("const", 0.0)):
+        return False
+    g = elem_of(li.domain, li.lid)
+    col = ("idx", cm, ("tuple", (("slice", None, None, None), g)))
+    acc = ("phi", li.lid, value[2][2])
+    for mx in (("mod", "numpy.max"), ("mod", "numpy.amax"), ("builtin", "max")):
+        term = ("call", mx, (col,), ())
+        if nxt in (("bin", "+", *sorted([acc, term], key=tkey)),):
+            stores = [e for e in w.events if li.lid in e.loops and e.kind == "store"]
+            return not stores
+    return False
 
 
 def check_normalize(rep, repo):
